@@ -72,6 +72,10 @@ def gen_c02(r, tier, info):
                         j = b.op(f"hash {s} {w_} {kstr(key)} {hexbytes(data)}")
                         b.eq(j, p, f"{s} (safe constructor) result differs from portable")
                 cases.append(b)
+    # conformance of the trusted intrinsic semantics with the real instructions
+    if info.get("arch") == "x86_64" and info.get("cpu_avx2") == "1":
+        for _ in range(2 if tier == "quick" else 20):
+            cases.append(gen.intrin_cases(r, reps=16 if tier == "quick" else 32))
     # streamed on each backend, states compared through checkpoints
     for _ in range(40 if tier == "quick" else 400):
         data = rbytes(r, r.choice(lens))
